@@ -61,7 +61,14 @@ def base_plan(seed, k):
     ops = [{"op": "create", "i": 0, "chart": "main", "engine": engine}, {"op": "validate", "i": 0},
            {"op": "run", "i": 0, "block": 0, "until": ["IDLE"], "max": 120}]
     for n in range(rp.randint(1, 4)):
-        ops.append({"op": "recv", "i": 0, "name": rp.choice(["a", "b", "pay.load"]), "json": json.dumps({"p": gen_payload(rp)})})
+        o = {"op": "recv", "i": 0, "name": rp.choice(["a", "b", "pay.load"]), "json": json.dumps({"p": gen_payload(rp)})}
+        if rp.random() < 0.6:
+            # params: several names, sometimes a name twice (a multimap in the event); namelist entries
+            names = [rp.choice(["alpha", "beta", "gamma", "a b", "k\"q"]) for _ in range(rp.randint(1, 4))]
+            o["params"] = [[nm, json.dumps(gen_payload(rp, 1))] for nm in names]
+        if rp.random() < 0.3:
+            o["namelist"] = [[nm, json.dumps(gen_payload(rp, 1))] for nm in rp.sample(["v0", "v1", "zeta"], rp.randint(1, 2))]
+        ops.append(o)
     ops.append({"op": "serialize", "i": 0, "slot": "s"})
     # round trip: fresh interpreter, deserialize, serialize again
     ops += [{"op": "create", "i": 1, "chart": "main", "engine": engine}, {"op": "deserialize", "i": 1, "slot": "s"},
